@@ -652,17 +652,20 @@ theorem sumByKey_go (fin : End) : ∀ (items : List Item) (acc : List (Val × In
 /-- the value is an int or a float -/
 def Numeric (it : Item) : Prop := (valNum it.2).isSome = true
 
-/-- What `top` relies on from container/heap (its documented contract: Push adds, Pop removes and returns a
-minimum w.r.t. `Less`), stated relative to the multiset `elems` of what a heap holds. -/
+/-- What `top` relies on from a priority queue: relative to an invariant `inv` (heap order) and the multiset
+`elems` of what the queue holds, Push adds and Pop removes and returns a minimum w.r.t. `Less`.
+Only numeric items (ints or floats) are ever pushed by `top`. -/
 structure PQLaw (pq : PQ) where
   elems : pq.Q → List Item
+  inv : pq.Q → Prop
+  inv_empty : inv pq.empty
   empty : elems pq.empty = []
-  push : ∀ q x, (elems (pq.push q x)).Perm (x :: elems q)
   size : ∀ q, pq.size q = (elems q).length
+  push : ∀ q x, inv q → Numeric x → (∀ y ∈ elems q, Numeric y) →
+    inv (pq.push q x) ∧ (elems (pq.push q x)).Perm (x :: elems q)
   pop_none : ∀ q, pq.pop q = none → elems q = []
-  pop_some : ∀ q x q', pq.pop q = some (x, q') →
-    (elems q).Perm (x :: elems q') ∧
-    ((∀ y ∈ elems q, Numeric y) → ∀ y ∈ elems q', ¬ itemLess y x = true)
+  pop_some : ∀ q x q', inv q → (∀ y ∈ elems q, Numeric y) → pq.pop q = some (x, q') →
+    inv q' ∧ (elems q).Perm (x :: elems q') ∧ ∀ y ∈ elems q', ¬ itemLess y x = true
 
 theorem itemLess_trans_le {a b c : Item} (ha : Numeric a) (hb : Numeric b) (hc : Numeric c)
     (h1 : ¬ itemLess a b = true) (h2 : ¬ itemLess b c = true) : ¬ itemLess a c = true := by
@@ -693,23 +696,25 @@ structure TopInv (n : Int) (P H D : List Item) : Prop where
 
 theorem topLoop_inv (pq : PQ) (law : PQLaw pq) (n : Int) (first : Val) :
     ∀ (xs P : List Item) (q : pq.Q) (D : List Item) (q' : pq.Q),
-      TopInv n P (law.elems q) D → topLoop pq n first xs q = some q' →
-      ∃ D', TopInv n (P ++ xs) (law.elems q') D' := by
+      law.inv q → TopInv n P (law.elems q) D → topLoop pq n first xs q = some q' →
+      ∃ D', law.inv q' ∧ TopInv n (P ++ xs) (law.elems q') D' := by
   intro xs
   induction xs with
   | nil =>
-    intro P q D q' hinv h
+    intro P q D q' hq hinv h
     simp only [topLoop, Option.some.injEq] at h
     subst h
-    exact ⟨D, by simpa using hinv⟩
+    exact ⟨D, hq, by simpa using hinv⟩
   | cons x xs ih =>
-    intro P q D q' hinv h
+    intro P q D q' hq hinv h
     obtain ⟨k, v⟩ := x
     simp only [topLoop] at h
     by_cases hk : sameKind first v = true
     · simp only [hk, Bool.not_true, Bool.false_eq_true, if_false] at h
       have hnum : Numeric (k, v) := numeric_of_sameKind hk k
-      have hpush := law.push q (k, v)
+      have hnumH : ∀ y ∈ law.elems q, Numeric y := fun y hy =>
+        hinv.num y (hinv.perm.mem_iff.mp (List.mem_append_left D hy))
+      obtain ⟨hq1, hpush⟩ := law.push q (k, v) hq hnum hnumH
       have hsz : pq.size (pq.push q (k, v)) = (law.elems q).length + 1 := by
         rw [law.size, hpush.length_eq]; simp
       have hnumP : ∀ y ∈ P ++ [(k, v)], Numeric y := by
@@ -729,14 +734,13 @@ theorem topLoop_inv (pq : PQ) (law : PQLaw pq) (n : Int) (first : Val) :
         | some r =>
           obtain ⟨m, q1⟩ := r
           simp only [hp] at h
-          obtain ⟨hperm, hmin0⟩ := law.pop_some _ _ _ hp
-          have hxm : ((k, v) :: law.elems q).Perm (m :: law.elems q1) := hpush.symm.trans hperm
           have hnumH1 : ∀ y ∈ law.elems (pq.push q (k, v)), Numeric y := by
             intro y hy
             rcases List.mem_cons.mp (hpush.mem_iff.mp hy) with e | e
             · rw [e]; exact hnum
-            · exact hinv.num y (hinv.perm.mem_iff.mp (List.mem_append_left D e))
-          have hmin := hmin0 hnumH1
+            · exact hnumH y e
+          obtain ⟨hq2, hperm, hmin⟩ := law.pop_some _ _ _ hq1 hnumH1 hp
+          have hxm : ((k, v) :: law.elems q).Perm (m :: law.elems q1) := hpush.symm.trans hperm
           have hinv' : TopInv n (P ++ [(k, v)]) (law.elems q1) (m :: D) := by
             refine ⟨?_, ?_, ?_, hnumP⟩
             · -- multiset bookkeeping
@@ -780,7 +784,7 @@ theorem topLoop_inv (pq : PQ) (law : PQLaw pq) (n : Int) (first : Val) :
               simp only [List.length_cons, List.length_append, List.length_nil] at hl ⊢
               rw [hsz] at hgt
               omega
-          have := ih (P ++ [(k, v)]) q1 (m :: D) q' hinv' h
+          have := ih (P ++ [(k, v)]) q1 (m :: D) q' hq2 hinv' h
           simpa [List.append_assoc] using this
       · -- still room: nothing was ever dropped
         simp only [hgt, if_false] at h
@@ -802,36 +806,35 @@ theorem topLoop_inv (pq : PQ) (law : PQLaw pq) (n : Int) (first : Val) :
           · rw [hpush.length_eq]
             simp only [List.length_cons, List.length_append, List.length_nil]
             omega
-        have := ih (P ++ [(k, v)]) _ [] q' hinv' h
+        have := ih (P ++ [(k, v)]) _ [] q' hq1 hinv' h
         simpa [List.append_assoc] using this
     · simp [hk] at h
 
 /-- emptying the heap yields its contents greatest first -/
 theorem popAll_spec (pq : PQ) (law : PQLaw pq) : ∀ (f : Nat) (q : pq.Q) (acc : List Item),
-    (law.elems q).length ≤ f → (∀ y ∈ law.elems q, Numeric y) →
+    (law.elems q).length ≤ f → law.inv q → (∀ y ∈ law.elems q, Numeric y) →
     ∃ out, popAll pq f q acc = out ++ acc ∧ out.Perm (law.elems q) ∧
       out.Pairwise (fun a b => ¬ itemLess a b = true) := by
   intro f
   induction f with
   | zero =>
-    intro q acc h _
+    intro q acc h _ _
     have : law.elems q = [] := List.eq_nil_of_length_eq_zero (by omega)
     exact ⟨[], by simp [popAll], by simp [this], by simp⟩
   | succ f ih =>
-    intro q acc h hnum
+    intro q acc h hq hnum
     cases hp : pq.pop q with
     | none =>
       have := law.pop_none q hp
       exact ⟨[], by simp [popAll, hp], by simp [this], by simp⟩
     | some r =>
       obtain ⟨x, q1⟩ := r
-      obtain ⟨hperm, hmin0⟩ := law.pop_some q x q1 hp
-      have hmin := hmin0 hnum
+      obtain ⟨hq1, hperm, hmin⟩ := law.pop_some q x q1 hq hnum hp
       have hl := hperm.length_eq
       simp only [List.length_cons] at hl
       have hnum1 : ∀ y ∈ law.elems q1, Numeric y := fun y hy =>
         hnum y (hperm.mem_iff.mpr (List.mem_cons_of_mem _ hy))
-      obtain ⟨out, h1, h2, h3⟩ := ih q1 (x :: acc) (by omega) hnum1
+      obtain ⟨out, h1, h2, h3⟩ := ih q1 (x :: acc) (by omega) hq1 hnum1
       refine ⟨out ++ [x], by simp [popAll, hp, h1], ?_, ?_⟩
       · have : (out ++ [x]).Perm (x :: out) := by
           simpa using (List.perm_append_comm (l₁ := out) (l₂ := [x]))
@@ -915,9 +918,11 @@ theorem extractMin_spec : ∀ (l : List Item) (m : Item) (rest : List Item),
 
 def listPQLaw : PQLaw listPQ where
   elems := fun q => q
+  inv := fun _ => True
+  inv_empty := trivial
   empty := rfl
-  push := fun _ _ => List.Perm.refl _
   size := fun _ => rfl
+  push := fun _ _ _ _ _ => ⟨trivial, List.Perm.refl _⟩
   pop_none := by
     intro q h
     cases q with
@@ -927,7 +932,8 @@ def listPQLaw : PQLaw listPQ where
       cases hx : extractMin xs with
       | none => simp [hx] at h
       | some r => obtain ⟨a, b⟩ := r; simp only [hx] at h; split at h <;> cases h
-  pop_some := fun q x q' h => extractMin_spec q x q' h
+  pop_some := fun q x q' _ hnum h =>
+    ⟨trivial, (extractMin_spec q x q' h).1, (extractMin_spec q x q' h).2 hnum⟩
 
 /-! ### sort.Search and CollectionFeature.FindValue -/
 
